@@ -4,6 +4,8 @@ import (
 	"context"
 	"encoding/json"
 	"math/rand"
+	"reflect"
+	"unsafe"
 
 	protocol "github.com/hujm2023/go-sms-protocol"
 	"github.com/hujm2023/go-sms-protocol/cmpp"
@@ -11,7 +13,9 @@ import (
 	"github.com/hujm2023/go-sms-protocol/codec"
 	"github.com/hujm2023/go-sms-protocol/datacoding"
 	"github.com/hujm2023/go-sms-protocol/datacoding/gsm7encoding"
+	"github.com/hujm2023/go-sms-protocol/smgp"
 	"github.com/hujm2023/go-sms-protocol/smgp/smgp30"
+	"github.com/hujm2023/go-sms-protocol/smpp"
 	"github.com/hujm2023/go-sms-protocol/smpp/smpp34"
 )
 
@@ -165,9 +169,22 @@ func runMem(c Case, tr *Tracer) {
 				in[i] = 0xEE
 			}
 			emit(Ev{"ev": "Scribble", "i": iid}, "Scribble")
-		case 4: // String() of a PDU
+		case 4: // String() of a PDU: a fresh one, or (every second time) a decoded one the caller still holds
 			tn := typeNames[rr.Intn(len(typeNames))]
-			sp, ok := build(tn, defaultAssign(rr, tn, true)).(interface{ String() string })
+			var obj interface{} = build(tn, defaultAssign(rr, tn, true))
+			if rr.Intn(2) == 0 {
+				var decs []*liveResult
+				for _, lr := range live {
+					if lr.kind == "decode" && lr.pdu != nil {
+						decs = append(decs, lr)
+					}
+				}
+				if len(decs) > 0 {
+					lr := decs[rr.Intn(len(decs))]
+					tn, obj = lr.tn, lr.pdu
+				}
+			}
+			sp, ok := obj.(interface{ String() string })
 			if !ok {
 				continue
 			}
@@ -183,6 +200,9 @@ func runMem(c Case, tr *Tracer) {
 		case 5: // split / UCS-2 helper
 			if rr.Intn(2) == 0 {
 				txt := randText(rr, 1+rr.Intn(300))
+				if rr.Intn(3) == 0 {
+					txt = textFrom(rr, 1+rr.Intn(140), "abc XYZ 0189.,") // fits one part in every coding
+				}
 				parts, _, err := protocol.EncodeSMPPContentAndSplit(context.Background(), txt, datacoding.SMPPDataCoding([]int{0, 1, 3, 8, 99}[rr.Intn(5)]), byte(rr.Intn(256)))
 				if err != nil {
 					continue
@@ -193,6 +213,7 @@ func runMem(c Case, tr *Tracer) {
 				lr.read = func() string { return snapJSON(parts) }
 				add(lr)
 				emit(Ev{"ev": "Split", "r": id}, "Split")
+				keep := string(append([]byte{}, txt...)) // a copy in memory of its own
 				for _, p := range parts {
 					full := p[:cap(p)]
 					for i := range full {
@@ -200,7 +221,12 @@ func runMem(c Case, tr *Tracer) {
 					}
 				}
 				lr.snap = lr.read()
-				emit(Ev{"ev": "ScribbleResult", "r": id}, "ScribbleResult")
+				e := Ev{"ev": "ScribbleResult", "r": id}
+				if txt != keep {
+					// the parts handed out were the memory of the caller's own text
+					e["same"] = false
+				}
+				emit(e, "ScribbleResult")
 			} else {
 				txt := randText(rr, rr.Intn(200))
 				s1 := cmpp.Utf8ToUcs2Pooled(txt)
@@ -216,7 +242,7 @@ func runMem(c Case, tr *Tracer) {
 			var out, ref []byte
 			var err error
 			name := ""
-			switch rr.Intn(10) {
+			switch rr.Intn(13) {
 			case 0, 4, 5:
 				name = "gsm7encoding.Decode"
 				sep, e := gsm7encoding.Encode(txt)
@@ -245,6 +271,29 @@ func runMem(c Case, tr *Tracer) {
 				}
 				out = gsm7encoding.Unpack(gsm7encoding.Pack(sep))
 				ref = gsm7encoding.Unpack(gsm7encoding.Pack(sep))
+			case 6: // serialised optional parameters
+				name = "smpp.TLVs.Bytes"
+				var t smpp.TLVs
+				for k := 0; k < 1+rr.Intn(3); k++ {
+					t.SetTLV(smpp.NewTLV(uint16(0x1400+rr.Intn(4)), randBytes(rr, rr.Intn(20))))
+				}
+				out = t.Bytes()
+				ref = nil
+				if len(t) == 1 {
+					ref = t.Bytes()
+				} else {
+					ref = out // several parameters are emitted in map order: only ownership is judged
+				}
+			case 7:
+				name = "smgp.Options.Serialize"
+				o := smgp.Options{}
+				o.Add(smgp.NewOption(smgp.Tag(1+rr.Intn(10)), randBytes(rr, rr.Intn(20))))
+				out, ref = o.Serialize(), o.Serialize()
+			case 8: // strings are results too
+				name = "cmpp.MsgID2String"
+				id := rr.Uint64()
+				out = strBytes(cmpp.MsgID2String(id))
+				ref = []byte(cmpp.MsgID2String(id))
 			default:
 				mk := []func(string) datacoding.Codec{
 					func(x string) datacoding.Codec { return datacoding.GSM7Packed(x) },
@@ -283,12 +332,14 @@ func runMem(c Case, tr *Tracer) {
 			lr.read = func() string { return string(lr.owned) }
 			add(lr)
 			emit(Ev{"ev": "Codec", "r": id, "fn": name, "same": string(out) == string(ref)}, "Codec")
-			full := out[:cap(out)]
-			for i := range full {
-				full[i] = 0xDD
+			if name != "cmpp.MsgID2String" { // (a string cannot be written to; it is only held and read again later)
+				full := out[:cap(out)]
+				for i := range full {
+					full[i] = 0xDD
+				}
+				lr.snap = lr.read()
+				emit(Ev{"ev": "ScribbleResult", "r": id}, "ScribbleResult")
 			}
-			lr.snap = lr.read()
-			emit(Ev{"ev": "ScribbleResult", "r": id}, "ScribbleResult")
 		case 8: // the batch encoder, asked again on the same builder: every Build hands out memory of its own
 			txt := randText(rr, 1+rr.Intn(300))
 			proto := []string{"CMPP", "SMPP"}[rr.Intn(2)]
@@ -400,6 +451,14 @@ func runMem(c Case, tr *Tracer) {
 			emit(Ev{"ev": "Refill"}, "Refill")
 		}
 	}
+}
+
+// strBytes views the memory of a string without copying it (read-only use: to see whether a later call changes it)
+func strBytes(s string) []byte {
+	if s == "" {
+		return nil
+	}
+	return unsafe.Slice((*byte)(unsafe.Pointer((*reflect.StringHeader)(unsafe.Pointer(&s)).Data)), len(s))
 }
 
 func randText(r *rand.Rand, n int) string {
